@@ -628,6 +628,8 @@ def opPyOp (j : Json) : Json :=
     | "truthy", [a] => .bool (Py.truthy a)
     | "not", [a] => Py.not_ a
     | "bool", [a] => Py.bool_ a
+    | "strip", [a] => Py.strip_ a
+    | "find", [a, b] => Py.find_ a b
     | "and", [a, b] => Py.and_ a b
     | "or", [a, b] => Py.or_ a b
     | "eq", [a, b] => Py.eq a b
